@@ -143,9 +143,29 @@ func (ct *GadgetCiphertext) ReadFrom(r io.Reader) (n int64, err error) {
 
 		n += inc
 
-		inc, err = ct.Value.ReadFrom(r)
+		if inc, err = ct.Value.ReadFrom(r); err != nil {
+			return n + inc, err
+		}
 
-		return n + inc, err
+		n += inc
+
+		// An empty decomposition is not a valid gadget ciphertext (its degree and levels are undefined).
+		if len(ct.Value) == 0 {
+			return n, fmt.Errorf("invalid encoding: empty gadget ciphertext")
+		}
+
+		for i := range ct.Value {
+			if len(ct.Value[i]) == 0 {
+				return n, fmt.Errorf("invalid encoding: empty gadget ciphertext row")
+			}
+			for j := range ct.Value[i] {
+				if len(ct.Value[i][j]) == 0 {
+					return n, fmt.Errorf("invalid encoding: empty gadget ciphertext element")
+				}
+			}
+		}
+
+		return n, nil
 
 	default:
 		return ct.ReadFrom(bufio.NewReader(r))
